@@ -82,7 +82,9 @@ Definition sync_eqb (a b : sync_result) := match a, b with
 """
 
 OUTCOMES = {"ok": "OReturn", "unpicklable": "OUnpicklable", "usage": "(ORaise true)", "usage2": "(ORaise true)",
-            "internal": "(ORaise false)"}
+            "internal": "(ORaise false)",
+            # a CancelledError / BaseException raised by the handler itself is captured like any internal error
+            "cancel_self": "(ORaise false)", "await_cancelled": "(ORaise false)", "base_exc": "(ORaise false)"}
 KINDS = {"ok": "KOk", "usage": "KUsage", "generic": "KGeneric", "sentinel": "KSentinel"}
 STATUS = {"up": "StUp", "closed": "StClosed"}
 
@@ -184,7 +186,7 @@ def fragment(rng, data: bytes, style):
 def server_scenario(rng, size):
     """A random event list for one connection: returns (events, msgs, stream)."""
     nmsg = rng.randint(1, size)
-    kinds_ok = ["work"] * 6 + ["quick:ok", "quick:usage", "quick:internal", "hidden", "nosuch", "badargs",
+    kinds_ok = ["work"] * 6 + ["quick:ok", "quick:usage", "quick:internal", "quick:cancel_self", "quick:base_exc", "hidden", "nosuch", "badargs",
                                "hidden_async", "not_callable", "_private", "__class__"]
     faults = ["close", "emptybytes", "badbody", "oversize", "maxsize", "quick:unpicklable"]
     msgs = []
@@ -207,7 +209,8 @@ def server_scenario(rng, size):
     pcomplete = rng.choice([0.3, 0.6, 1.0])
     psent = rng.choice([0.2, 0.6, 1.5])
     pfault2 = rng.choice([0.0, 0.0, 0.02, 0.06])
-    outcomes = ["ok"] * 4 + ["usage", "usage2", "internal", "internal"] + (["unpicklable"] if rng.random() < 0.3 else [])
+    outcomes = (["ok"] * 4 + ["usage", "usage2", "internal", "internal", rng.choice(["cancel_self", "await_cancelled", "base_exc"])]
+                + (["unpicklable"] if rng.random() < 0.3 else []))
 
     def extras():
         while todo and rng.random() < pcomplete / (1 + pcomplete):
